@@ -1325,6 +1325,24 @@ def c12_metal(tier, rnd):
     return progs
 
 
+def with_implicit(prog, names, variant="identity"):
+    """the program under the option implicit_i18n_attributes=names: every attribute of one of these names (compared in
+    lower case) is translated as if a clause of i18n:attributes named it, without an explicit id"""
+    import copy
+    q = copy.deepcopy(prog)
+    for it in q["items"]:
+        if it.get("k") != "open":
+            continue
+        have = {a["key"] for a in it["ia"]}
+        for a in list(it["sattr"]) + [d for d in it["dattr"] if not d["d"] and not d["b"]]:
+            if a["key"] in names and a["key"] not in have:
+                it["ia"].append({"n": a["n"], "key": a["key"], "id": "", "implicit": True})
+                have.add(a["key"])
+    q["cfg"] = dict(q.get("cfg") or {}, implicit_i18n_attributes=sorted(names), _translate_variant=variant)
+    q["fam"] = q.get("fam", "") + " +implicit(" + ",".join(sorted(names)) + ")"
+    return q
+
+
 # ------------------------------------------------------------------ C10 (I18N)
 def c10_family(tier, rnd):
     quick = tier == "quick"
